@@ -88,6 +88,8 @@ Section Own.
       destruct (Ich1 n eq_refl) as [Ln _]. split; [exact Ln | now left].
     - (* PRecvAwait -> PRelock: the channel is closed, so it is not the awaited one *)
       destruct TF as (Lc & [Aw|Aw]); [|exact Aw]. destruct (Ich1 c Aw) as [_ Oc]. congruence.
+    - (* PRelock with a rotation queued again: excluded for a single writer (th_facts1: awaitRotate is nil here) *)
+      discriminate TF.
     - (* StoreLogs: offsets published *)
       assert (L : op_locking th = true) by (unfold op_locking; now rewrite Heqo).
       destruct TF as (Ox & Lf). destruct (Lf L) as (Xc & Aw). auto.
